@@ -45,13 +45,35 @@ class Disposables:
                 return multiple
 
     async def __aenter__(self) -> Iterable[State]:
-        return [
-            *chain.from_iterable(
-                state
-                for state in await gather(
-                    *[self._initialize(disposable) for disposable in self._disposables],
-                )
+        results: list[Iterable[State] | BaseException] = await gather(
+            *[self._initialize(disposable) for disposable in self._disposables],
+            return_exceptions=True,
+        )
+
+        exceptions: list[BaseException] = [exc for exc in results if isinstance(exc, BaseException)]
+
+        if exceptions:
+            # dispose everything that was already initialized before failing
+            await gather(
+                *[
+                    disposable.__aexit__(
+                        type(exceptions[0]),
+                        exceptions[0],
+                        exceptions[0].__traceback__,
+                    )
+                    for disposable, result in zip(self._disposables, results, strict=True)
+                    if not isinstance(result, BaseException)
+                ],
+                return_exceptions=True,
             )
+
+            if len(exceptions) == 1:
+                raise exceptions[0]
+
+            raise BaseExceptionGroup("Initializing errors", exceptions)
+
+        return [
+            *chain.from_iterable(state for state in results if not isinstance(state, BaseException))
         ]
 
     async def __aexit__(
